@@ -19,7 +19,7 @@ LEVEL_NOTE = ('Trusted: uncached listing of each member rule (C01 not judged); P
 TECHNIQUE = ('deterministic simulation of mutation/iteration histories against a set-algebra reference model')
 
 CLASSES = {
-    "hist": dict(quick=10000, thorough=250000, timeout=30),
+    "hist": dict(quick=30000, thorough=800000, timeout=30),
 }
 
 RULE = ("one evaluation = one generated history of member additions, "
